@@ -142,6 +142,8 @@ def run(tier, seed, repo, build, out, flavours, zoo):
         os.rmdir(gendir)
     except OSError:
         pass
+    # run-time half: callbacks see the declared stateId(), and control.plan() inside a state is plan(<published id of its region>)
+    rt = runtime(tier, seed, out, violations, undecided)
     nt = [s for s in specs if nontrivial(s)]
     sizes = [len(structgen.number(structgen.parse(s))) for s in specs]
     asserts = sum(2 * len(structgen.number(structgen.parse(s))) for s in specs)
@@ -152,10 +154,59 @@ def run(tier, seed, repo, build, out, flavours, zoo):
                samples=specs[12:18], classes=dict(structures=len(specs), max_states=max(sizes), mean_states=sum(sizes) // len(sizes), approx_static_asserts=asserts,
                                                   with_headless=sum(1 for s in specs if any(ch.islower() for ch in s)), with_width1=sum(1 for s in specs if '[.]' in s)),
                translation_units=len(jobs), flavours=flavours)
+    cov['classes'].update(rt)
+    cov['rule'] += ' Run-time half: generated histories on three zoo machines (walkers, --prop C17) compare control.stateId() in every callback with the declared id and control.plan() inside update() with plan(<published region id>).'
     return cov, violations, undecided, time.time() - t0
 
 
+RUNTIME_WALKERS = ['walk_z15_units_m', 'walk_z01_kitchen_m', 'walk_z08_wide_m']
+
+
+def runtime(tier, seed, out, violations, undecided):
+    import shutil
+    import check, props
+    specs = [w for w in props.WALKERS if w['name'] in RUNTIME_WALKERS]
+    bins = check.build_all(specs, ['single'])
+    cases = 3000 if tier == 'quick' else 20000
+    with ThreadPoolExecutor(max_workers=len(specs)) as ex:
+        futs = [ex.submit(check.run_job, dict(bin=w['name'], cases=cases, size=40, flavour='single'), bins[(w['name'], 'single')], 'C17', tier, seed, i, [], 3000) for i, w in enumerate(specs)]
+        results = [f.result() for f in futs]
+    total = 0
+    for r in results:
+        name = r['job']['bin']
+        total += (r['stats'] or {}).get('evaluations', 0)
+        if r['rc'] == 0:
+            continue
+        case = r['replay'] or r['pending']
+        if case is None:
+            undecided.append((name, str(r['rc']) + ' ' + (r['out'] or '')[-500:]))
+            continue
+        os.makedirs(os.path.join(out, 'replays'), exist_ok=True)
+        dst = os.path.join(out, 'replays', 'C17-%s-single.case' % name)
+        shutil.copyfile(case, dst)
+        fails, last = 0, ''
+        for _ in range(3):
+            rc, o = check.replay(r['binpath'], 'C17', dst, [], [])
+            last = o
+            fails += rc != 0
+        if fails == 3:
+            m = re.search(r'REPLAY-FAIL (.*)', last)
+            violations.append(dict(replay=dst, message=m.group(1) if m else 'run-time identifier check fails on replay'))
+        else:
+            undecided.append((name, 'failure does not reproduce on replay'))
+    return dict(runtime_walkers=len(specs), runtime_cases=total)
+
+
 def replay(path, repo, flavours):
+    raw = open(path, 'rb').read()
+    m = re.match(r'C17-(walk_\w+?)-single', os.path.basename(path))
+    if m and not raw.strip().isascii() or (m and not re.match(rb'^[A-Za-z\[\]\.]+$', raw.strip())):
+        import check, props
+        specs = [w for w in props.WALKERS if w['name'] == m.group(1)]
+        bins = check.build_all(specs, ['single'])
+        rc, o = check.replay(bins[(m.group(1), 'single')], 'C17', path, [], [])
+        print(o[-2000:])
+        return rc == 0
     spec = open(path).read().strip()
     ok = True
     for dev in ([False, True] if 'dev' in flavours else [False]):
